@@ -492,6 +492,14 @@ def case(ctx, i, rng):
     rowforms = {}    # i -> Form returned for a whole row
     nested_rank1 = None
     want = [(a, b) for a in range(n0) for b in range(n1)] if arity == 2 else [(a, None) for a in range(n0)]
+    if rng.random() < 0.3:
+        # history: the same form was taken apart before with the OTHER replace_argument setting (what the first call did
+        # with its arguments must not reach this one)
+        try:
+            ufl.extract_blocks(F, replace_argument=not replaced)
+            ctx.count("prior_calls_with_the_other_setting")
+        except Exception:
+            ctx.count("prior_calls_with_the_other_setting_raised")
     try:
         if api == "all":
             r = ufl.extract_blocks(F, replace_argument=replaced)
